@@ -94,21 +94,30 @@ def rules(ctx, db):
         if any(f.id.startswith("compio_tls::compat::native::") for f in db.fns.values()) and not pc:
             ctx.missing("R4", "native TlsStream::poll_close")
         for f in pc:
-            wcs = calls(f, r"native::TlsStream::<S>::with_context$")
+            # the shutdown stage may live in a private helper of the stream that poll_close calls
+            helpers = [g for g in db.succ_fns(f, expand_traits=False) if g.self_adt == "compio_tls::compat::native::TlsStream" and g.id != f.id
+                       and g.short != "with_context"]
             sh, fl = [], []
-            for bb, t in wcs:
+            sh_fns = []
+            for holder in [f] + helpers:
+              for bb, t in calls(holder, r"native::TlsStream::<S>::with_context$"):
                 for a in t["args"]:
                     pl = op_place(a)
                     if pl is None:
                         continue
-                    for d in f.cfg.defs.get(pl["l"], []):
+                    for d in holder.cfg.defs.get(pl["l"], []):
                         if d[0] == "assign" and d[3]["r"].get("k") == "agg" and d[3]["r"].get("x") == "closure":
                             g = db.fns.get(d[3]["r"]["def"])
                             if g is None:
                                 continue
                             if calls(g, r"native_tls::TlsStream::<S>::shutdown$"):
-                                sh.append(bb)
-                            if calls(g, r"std::io::Write::flush$") and calls(g, r"native_tls::TlsStream::<S>::get_mut$"):
+                                sh_fns.append((holder, bb))
+                                if holder is f:
+                                    sh.append(bb)
+                                else:
+                                    # the call of the helper inside poll_close stands for the shutdown stage
+                                    sh += [cb for cb, ct in f.calls() if any(h.id == holder.id for h in db.callee_fns(ct, expand_traits=False))]
+                            if holder is f and calls(g, r"std::io::Write::flush$") and calls(g, r"native_tls::TlsStream::<S>::get_mut$"):
                                 fl.append((bb, t))
             ok = bool(sh) and bool(fl)
             detail = "shutdown and a transport flush are both issued through with_context"
@@ -139,10 +148,10 @@ def rules(ctx, db):
             # a re-polled close must not run SSL_shutdown a second time (that would wait for the peer's close_notify and
             # never retry the flush): the shutdown call is guarded by a flag that is set after it succeeded
             guarded = False
-            for s_ in sh:
-                for bi, b in enumerate(f.blocks):
+            for holder, s_ in sh_fns:
+                for bi, b in enumerate(holder.blocks):
                     t = b["t"]
-                    if t["k"] == "switch" and t.get("oty") == "bool" and any(f.cfg.edge_dominates(bi, tgt, s_) for _, tgt in t["tg"]):
+                    if t["k"] == "switch" and t.get("oty") == "bool" and any(holder.cfg.edge_dominates(bi, tgt, s_) for _, tgt in t["tg"]):
                         guarded = True
             ctx.ob("R4", "shutdown-not-repeated", guarded or not sh,
                    "the SSL shutdown call is skipped on a re-poll once it succeeded (a second SSL_shutdown would wait for the peer)", f)
